@@ -1,0 +1,23 @@
+//go:build verif
+
+// Machine-checked contracts for package xar (comment-only; see /verif/DESIGN.md).
+
+package xar
+
+//@ func readHeapBlob
+//@   property C11
+//@   nopanic
+//@   requires r != nil
+//@   ensures @blob_lies_inside_the_archive ret1 == nil ==> len(ret0) == length && 0 <= offset && 0 <= length && base + offset + length <= fileSize
+//@   allocbound 0 fileSize
+//@
+//@ func (*XAR).Verify
+//@   property C02
+//@   ghost cmsOK bool = false
+//@   ghost classicOK bool = false
+//@   ghost filesOK bool = false
+//@   on call (*pkcs7.SignedData).Verify(sd, ext, skip) ret (s, e): cmsOK = (e == nil && sameslice(ext, atcall(x.TOCHash)) && !skip)
+//@   on call x509tools.Verify(k, h, d, s) ret (e): classicOK = classicOK || (e == nil && h == atcall(x.HashFunc) && sameslice(s, atcall(x.ClassicSignature)))
+//@   on call (*XAR).checkFiles(_) ret (e): filesOK = (e == nil)
+//@   ensures @table_of_contents_signature_verified ret1 == nil ==> (old(x.CMSSignature != nil) ==> cmsOK) && (old(x.CMSSignature == nil) ==> classicOK)
+//@   ensures @member_checksums_compared_unless_skipped ret1 == nil && !skipDigests ==> filesOK
